@@ -8,7 +8,7 @@ LEVEL = 'model_checking'
 def run(tier, t0):
     acc = common.Acc()
     cc.explore('C09', tier, acc)
-    rule = ('BFS over antichains of cells by edit operations remove(x)/split(x) from the bases listed in notes, exact deduplication on the antichain; every state is given to the real '
+    rule = ('BFS over antichains of cells by edit operations remove(x)/split(x) from the bases listed in notes, plus every antichain of <= 4 (quick) / 5 (thorough) cells over a 38-cell menu, exact deduplication on the antichain; every state is given to the real '
             'compact in sorted, reversed, rotated, interleaved and duplicated order (all permutations for small states) and compared with the set-based reference compaction; '
             'non-trivial = states in which at least one sibling group has to merge')
     return common.finish(PID, LEVEL, tier, acc, t0, rule, [
